@@ -527,7 +527,7 @@ class ReadNonblockingBase(Contract):
     """SpawnBase.read_nonblocking as executed for an fd-like transport: one os.read, one incremental decode
     with the instance's decoder, logged once, returned (C07, C11)."""
     name = SPAWNBASE + '.read_nonblocking'
-    receiver = (FD, PTY, 'base')
+    receiver = ('base',)
     props = ('C07', 'C11')
     standin = False
 
@@ -600,7 +600,6 @@ def register(reg):
     reg.add_iface('iface:file', 'write', FileWrite)
     reg.add_iface('iface:file', 'flush', FileFlush)
     reg.add_extern('os.write', OsWrite)
-    reg.add_extern('os.read', OsRead)
     reg.add_iface('iface:pipe', 'write', PipeWrite)
     reg.add_iface('iface:socket', 'sendall', SockSendall)
     reg.add_iface('iface:socket', 'send', SockSendPartial)
@@ -609,7 +608,6 @@ def register(reg):
     for m in ('sendcontrol', 'sendeof', 'sendintr'):
         reg.add_iface('iface:ptyproc', m, PtySendControl)
     reg.add(LogContract)
-    reg.add(ReadNonblockingBase)
     for cls in TRANSPORTS:
         reg.add(make_send(cls, channel_fd=cls in (PTY, FD)))
         reg.add(make_sendline(cls, two_sends=(cls == POPEN)))
